@@ -238,6 +238,19 @@ func histGen(g *G, tier string) []M {
 			M{"i": ext["i"], "dst": 2.0, "a": 0.0, "id": e["src"], "depth": 3.0}}
 		extra = append(extra, M{"op": "hist", "regs": Normalize(op["regs"]), "prog": prog, "raw": true})
 	}
+	// directed: the argument of a merge has, for an edge the receiver also has, one more target that
+	// is not a node of the receiver; the receiver is looked at again afterwards
+	for i := 0; i < len(ops)/25+1; i++ {
+		ty := float64(EdgeTypes[g2.Int(3)])
+		r0 := M{"nodes": []any{M{"id": "a", "type": 0.0, "a": M{}}, M{"id": "b", "type": 0.0, "a": M{}}},
+			"edges": []any{M{"ty": ty, "src": "a", "tos": []any{"b"}}}, "roots": []any{"a"}}
+		r1 := M{"nodes": []any{M{"id": "a", "type": 0.0, "a": M{}}, M{"id": "b", "type": 0.0, "a": M{}}, M{"id": "c", "type": 0.0, "a": M{}}},
+			"edges": []any{M{"ty": ty, "src": "a", "tos": []any{"b", "c"}}}, "roots": []any{"a"}}
+		first := g2.Pick([]string{"intersect", "union"})
+		prog := []any{M{"i": first, "dst": 2.0, "a": 0.0, "b": 1.0}, M{"i": "nodeGraph", "dst": 2.0, "a": 0.0, "id": "a"},
+			M{"i": g2.Pick([]string{"intersect", "union"}), "dst": 2.0, "a": 0.0, "b": 1.0}}
+		extra = append(extra, M{"op": "hist", "regs": []any{r0, r1, M{"nodes": []any{}, "edges": []any{}, "roots": []any{}}}, "prog": prog})
+	}
 	return append(ops, extra...)
 }
 
